@@ -25,7 +25,7 @@ names, local variable names or one loop idiom:
 from __future__ import annotations
 
 import ast
-from dataclasses import dataclass
+from dataclasses import dataclass, field
 
 from core.guards import f_or, implies
 from core.inline_stmt import inline_view
@@ -39,6 +39,7 @@ from .common import assigned_names, cfg_of, dotted, guard_formula, reachable_fun
 from .tables import EXPLICIT_QUERY, MATCHER, MODREQ, OTHER_QUERIES, RULE, SEARCHES
 
 EVAL_ARCH = "pytestarch.eval_structure.evaluable_architecture"
+EV_TAG = "acc:@evaluable"  # provenance tag of the evaluable handed to the matcher entry point
 
 CONVERTER = "pytestarch.eval_structure.module_name_converter"
 
@@ -73,6 +74,106 @@ def _allow_r1(caller: FuncInfo, callee: FuncInfo) -> bool:
     if name.startswith("pytestarch.eval_structure"):
         return False
     return not any(name == m or (m.endswith(".") and name.startswith(m)) for m in CONSUMER_MODULES)
+
+
+@dataclass
+class Wrapped:
+    """A call of a repo helper that the view cannot take apart (a generator, a callable with several exits) and that hands out
+    results of ModuleNameConverter.convert: the call stands for the conversions it makes."""
+
+    call: ast.Call
+    callee: FuncInfo
+    accs: list[str]  # accessors of the module requirement whose filters it converts
+    ev_ok: bool  # every conversion inside is made against a parameter / a field of the matcher (which must hold the evaluable, see ev_exprs)
+    undecided: str = ""
+    ev_exprs: list = field(default_factory=list)  # argument expressions of the call / names of fields of `self` that must hold the evaluable
+    ev_text: str = ""
+
+
+def _wrapped_conversions(repo: Repo, fn: Fn, calls: list[ast.Call], accessors: dict[str, set[str]], ev: str) -> list[Wrapped]:
+    T = types_of(repo)
+    out: list[Wrapped] = []
+    for w in calls:
+        cs, how = fn.callees(w)
+        if len(cs) != 1 or how != "repo":
+            continue
+        g = cs[0]
+        if g.fq == CONVERT_FQ or g.is_abstract or isinstance(g.node, ast.Lambda) or g.module.name.startswith("pytestarch.eval_structure"):
+            continue
+        inner = []
+        for c in own_nodes(g.node):
+            if isinstance(c, ast.Call):
+                try:
+                    ics, _h = T.callees(g, c, byname_fallback=False)
+                except Exception:  # noqa: BLE001
+                    ics = []
+                if any(f.fq == CONVERT_FQ for f in ics):
+                    inner.append(c)
+        if not inner:
+            continue
+        gfn = Fn(repo, g)
+        why = ""
+        # the results leave the helper: yielded / returned (directly or through locals) - anything else is not followed
+        if not any(isinstance(x, (ast.Yield, ast.YieldFrom, ast.Return)) for x in own_nodes(g.node)):
+            why = f"{g.qualname} converts but hands nothing out"
+        # made on every run of the helper
+        for c in inner:
+            top = _always_run(gfn, c)
+            if flatten(gfn.conds_all(c)) or parent(top) is not g.node:
+                why = why or f"the conversion inside {g.qualname} is conditional"
+        # against the evaluable given at this call
+        a = g.node.args
+        pos = [p.arg for p in [*a.posonlyargs, *a.args]]
+        if g.cls is not None and g.outer is None and not g.is_staticmethod and pos:
+            pos = pos[1:]
+        bound: dict[str, ast.AST] = dict(zip(pos, w.args))
+        bound.update({k.arg: k.value for k in w.keywords if k.arg})
+        ev_ok = True
+        ev_exprs: list = []
+        ev_text = ""
+        for c in inner:
+            arch = c.args[1] if len(c.args) > 1 else next((k.value for k in c.keywords if k.arg not in (None, "modules")), None)
+            ev_text = ev_text or (norm(arch, 40) if arch is not None else "?")
+            if isinstance(arch, ast.Name) and arch.id in bound and all(d.kind == "param" for d in gfn.reaching(arch.id, arch)):
+                ev_exprs.append(bound[arch.id])
+            elif isinstance(arch, ast.Attribute) and isinstance(arch.value, ast.Name) and arch.value.id == "self" and isinstance(w.func, ast.Attribute) and isinstance(w.func.value, ast.Name) and w.func.value.id == "self" and not any(isinstance(x, ast.Attribute) and isinstance(x.ctx, ast.Store) and x.attr == arch.attr for x in own_nodes(g.node)):
+                ev_exprs.append(arch.attr)  # a field of the matcher, not written by the helper itself
+            else:
+                ev_ok = False
+
+        def attr_tags(at: ast.Attribute, base=frozenset()):
+            if at.attr in accessors and any(m[0] == "cls" and m[1].endswith(".ModuleRequirement") for m in _members(gfn.type_of(at.value))):
+                return {f"acc:{at.attr}"}
+            return None
+
+        sub = Provenance(gfn, lambda c_, a_: None, lambda x: _scalar_type(gfn.type_of(x)), attr_tags, None, None)
+        accs: set[str] = set()
+        for c in inner:
+            inp = c.args[0] if c.args else next((k.value for k in c.keywords), None)
+            got = {t[4:] for t in sub.of(inp) if t.startswith("acc:")} if inp is not None else set()
+            if not got:
+                why = why or f"the input `{norm(inp, 50) if inp is not None else '?'}` of the conversion inside {g.qualname} is not recognised as an accessor of the module requirement"
+            accs |= got
+        out.append(Wrapped(w, g, sorted(accs), ev_ok, why, ev_exprs, ev_text))
+    return out
+
+
+def _pipeline_ctor(init: FuncInfo) -> bool:
+    """Constructor of a helper class that owns a part of the pipeline under test: it (or what it calls) converts the regexes or
+    queries the graph.  Such a constructor is taken apart in the view; plain carriers (the requirement classes) stay calls."""
+    repo = init.module.repo  # type: ignore[attr-defined]
+    cache = repo.__dict__.setdefault("_c11_pipeline_ctor", {})
+    if init.fq not in cache:
+        hit = False
+        for g in reachable_funcs(repo, [init], byname=False):
+            if g.fq == CONVERT_FQ:
+                hit = True
+                break
+            if not g.module.name.startswith("pytestarch.eval_structure") and any(_query_site(x) for x in own_nodes(g.node)):
+                hit = True
+                break
+        cache[init.fq] = hit
+    return cache[init.fq]
 
 
 def _members(t) -> list:
@@ -452,12 +553,25 @@ def run_r1(repo: Repo, res: Result) -> None:
     res = Dedupe()
     for cur, entry0 in [(c, e) for c in concrete for e in entries]:
         entry = repo.lookup_method(cur, entry0.name) or entry0
-        view = class_view(repo, entry, cur, allow=_allow_r1, max_depth=4)
+        view = class_view(repo, entry, cur, allow=_allow_r1, max_depth=4, inline_ctor=_pipeline_ctor)
         fn = Fn(repo, view)
         cfg = cfg_of(view)
         ev = next((p.arg for p in view.params[1:] if p.annotation is not None and any(m[0] == "cls" and m[1].endswith(".EvaluableArchitecture") for m in _members(T.ann(view.module, p.annotation)))), view.param_names[1] if len(view.param_names) > 1 else "")
         calls = [c for c in own_nodes(view.node) if isinstance(c, ast.Call)]
         convs = [c for c in calls if any(f.fq == CONVERT_FQ for f in fn.callees(c)[0])]
+        wrapped = {id(x.call): x for x in _wrapped_conversions(repo, fn, [c for c in calls if c not in convs], accessors, ev)}
+        convs += [x.call for x in wrapped.values()]
+
+        def conv_input(c: ast.Call) -> ast.AST | None:
+            if id(c) in wrapped:
+                return None
+            return c.args[0] if c.args else next((k.value for k in c.keywords), None)
+
+        def conv_accs(c: ast.Call, pv) -> list[str]:  # noqa: ANN001
+            if id(c) in wrapped:
+                return list(wrapped[id(c)].accs)
+            inp_ = conv_input(c)
+            return sorted(t[4:] for t in pv.of(inp_) if t.startswith("acc:")) if inp_ is not None else []
         queries = [c for c in calls if _query_call(fn, c, ev)]
         base = f"{entry.relpath}::{entry.qualname}::"
         if not queries:
@@ -476,6 +590,10 @@ def run_r1(repo: Repo, res: Result) -> None:
             if id(call) not in ids:
                 return None
             out = {f"conv:{ids[id(call)]}"}
+            if id(call) in wrapped:
+                for a_ in wrapped[id(call)].accs:
+                    out |= {f"cside:{p}" for p in accessors.get(a_, ())}
+                return out
             for t in (argtags[0] if argtags else ()):
                 if t.startswith("acc:"):
                     out |= {f"cside:{p}" for p in accessors.get(t[4:], ())}
@@ -537,7 +655,7 @@ def run_r1(repo: Repo, res: Result) -> None:
                     return forced[id(st_if)]
                 return assume(st_if, state)
 
-            return Provenance(fn, source, lambda a: _scalar_type(fn.type_of(a)), attr_tags, assume2, passes)
+            return Provenance(fn, source, lambda a: _scalar_type(fn.type_of(a)), attr_tags, assume2, passes, init={ev: frozenset({EV_TAG})})
 
         prov = make_prov()
         # ---- conversions that run only under a condition on the *rule* (not on the matcher's state): `if <cond>: convert(side)
@@ -582,12 +700,21 @@ def run_r1(repo: Repo, res: Result) -> None:
                     problems.append((f"the query `{norm(q, 50)}` can be reached without the conversion `{norm(c, 50)}`", q, state or not lits))
                     break
         for c in convs:
+            if id(c) in wrapped:
+                wr = wrapped[id(c)]
+                if wr.undecided:
+                    res.undecide("C11.R1", base + "conversion dominates evaluation", f"`{norm(c, 60)}`: {wr.undecided}", where(view, c))
+                held = [set(prov.of(x)) if not isinstance(x, str) else set(prov.field_at(stmt_of(c), x)) for x in wr.ev_exprs]
+                if not wr.ev_ok or any(h != {EV_TAG} for h in held):
+                    problems.append((f"`{norm(c, 70)}` converts against `{wr.ev_text}` inside {wr.callee.qualname}, not against the evaluable `{ev}` being checked", c, False))
+                continue
             arg = c.args[1] if len(c.args) > 1 else next((k.value for k in c.keywords if k.arg not in (None, "modules")), None)
-            if not (isinstance(arg, ast.Name) and arg.id == ev and all(d.kind == "param" for d in fn.reaching(ev, arg))):
+            direct = isinstance(arg, ast.Name) and arg.id == ev and all(d.kind == "param" for d in fn.reaching(ev, arg))
+            if not direct and not (arg is not None and set(prov.of(arg)) == {EV_TAG}):  # the parameter itself, or a local / field that holds it on every path
                 problems.append((f"`{norm(c, 70)}` converts against `{norm(arg) if arg is not None else '?'}`, not against the evaluable `{ev}` being checked", c, False))
         # the input of the conversion is the requirement as specified, not something an earlier evaluation left behind
         for c in convs:
-            inp = c.args[0] if c.args else next((k.value for k in c.keywords), None)
+            inp = conv_input(c)
             for t in sorted(prov.of(inp)) if inp is not None else []:
                 if not t.startswith("pre:self."):
                     continue
@@ -615,7 +742,7 @@ def run_r1(repo: Repo, res: Result) -> None:
         # ---- every combination of the rule-dependent branches is followed on its own (no such branch: one pass, as written)
         import itertools
 
-        spec_fields = {t for c in convs for t in (prov.of(c.args[0] if c.args else next((k.value for k in c.keywords), None)) if (c.args or c.keywords) else ()) if t.startswith("pre:")}
+        spec_fields = {t for c in convs if conv_input(c) is not None for t in prov.of(conv_input(c)) if t.startswith("pre:")}
         main_prov = prov
         for combo in itertools.product((True, False), repeat=len(splits)):
             forced = {hid: (in_body if run else not in_body) for (hid, (_h, in_body, _cs)), run in zip(splits.items(), combo)}
@@ -634,8 +761,7 @@ def run_r1(repo: Repo, res: Result) -> None:
                     continue
                 where_skipped = where_skipped or f"when `{norm(h.test, 60)}` is {'false' if in_body else 'true'}"
                 for c in cs:
-                    inp_ = c.args[0] if c.args else next((k.value for k in c.keywords), None)
-                    sides_c = set().union(*[accessors.get(t[4:], set()) for t in main_prov.of(inp_) if t.startswith("acc:")]) if inp_ is not None else set()
+                    sides_c = set().union(*[accessors.get(a_, set()) for a_ in conv_accs(c, main_prov)]) if conv_accs(c, main_prov) else set()
                     free = _no_regex_guard(fn, main_prov, h.test, not in_body, accessors)
                     same = _same_spec_guard(fn, main_prov, h.test, not in_body)
                     for sd in sides_c:
@@ -667,8 +793,7 @@ def run_r1(repo: Repo, res: Result) -> None:
             conv_side: dict[int, set[str]] = {}
             acc_text: dict[int, list[str]] = {}
             for c in active:
-                inp = c.args[0] if c.args else next((k.value for k in c.keywords), None)
-                accs = sorted(t[4:] for t in prov.of(inp) if t.startswith("acc:")) if inp is not None else []
+                accs = conv_accs(c, prov)
                 acc_text[ids[id(c)]] = accs
                 conv_side[ids[id(c)]] = set().union(*[accessors.get(a, set()) for a in accs]) if accs else set()
             covered = set().union(*conv_side.values()) if conv_side else set()
@@ -678,7 +803,7 @@ def run_r1(repo: Repo, res: Result) -> None:
             if skipped_convs and not ok:
                 pass  # decided where the sides reach the queries (3)
             elif convs and any(not v for v in conv_side.values()):
-                res.undecide("C11.R1", base + "both sides converted", f"the input `{norm(convs[[i for i, v in conv_side.items() if not v][0]].args[0], 60) if convs[0].args else '?'}` of a conversion is not recognised as an accessor of the module requirement", where(view, convs[0]))
+                res.undecide("C11.R1", base + "both sides converted", f"the input `{norm(conv_input(convs[[i for i, v in conv_side.items() if not v][0]]) or convs[0], 60)}` of a conversion is not recognised as an accessor of the module requirement", where(view, convs[0]))
             else:
                 res.add("C11.R1", base + "both sides converted", ok, "importers and importees are both converted against the evaluable being checked" if ok else f"the conversion covers {all_accs} only: a side ({', '.join(sorted(set(sides) - covered)) or 'one of ' + ', '.join(sides)}) keeps its regex filters or is converted twice", where(view, convs[0] if convs else view.node), kind="structural")
             # ---- (3) the queries receive converted filters only
@@ -729,6 +854,8 @@ def run_r1(repo: Repo, res: Result) -> None:
             for c in calls:
                 if not (isinstance(c.func, ast.Attribute) and isinstance(c.func.value, ast.Name) and c.func.value.id == "self"):
                     continue
+                if id(c) in wrapped:
+                    continue  # reads the requirement as specified in order to convert it
                 roots = [f for f in fn.callees(c)[0] if f.cls in classes]
                 if not roots:
                     continue
@@ -1881,6 +2008,7 @@ def run_r4(repo: Repo, res: Result) -> None:
         )
         # ---- independent searches: the value of a key is a search over the graph, the key and whole given collections only
         bad = []
+        unsure4: list[str] = []
         for c in contribs:
             bnames = {x for b in c.binders for x in b.names}
             if c.value is None:
@@ -1890,7 +2018,11 @@ def run_r4(repo: Repo, res: Result) -> None:
                 call = _strip_copies(cand)
                 searches_in = [x for x in ast.walk(cand) if isinstance(x, ast.Call) and (lambda cs: bool(cs) and all(f.module.name == SEARCHES for f in cs))(fn.callees(x)[0])]
                 if not searches_in:
-                    bad.append(f"the value `{norm(cand, 80)}` stored for a key is not computed by a graph search for that key (it is derived from other state)")
+                    kind, why = _helper_search(fn, co, call, bnames, params, key_params)
+                    if kind == "bad":
+                        bad.append(why)
+                    elif kind == "unsure":
+                        unsure4.append(why)
                     continue
                 if call is not searches_in[0] or len(searches_in) != 1:
                     others = sorted({x.id for x in ast.walk(cand) if isinstance(x, ast.Name) and x.id in fn.mutated} - bnames)
@@ -1901,6 +2033,8 @@ def run_r4(repo: Repo, res: Result) -> None:
                     if why:
                         bad.append(f"the search also receives `{show(a, 60)}`{why}")
         n += 1
+        if unsure4 and not bad:
+            res.undecide("C11.R4", base_key + " [independent searches]", unsure4[0], where(view, key_node))
         res.add(
             "C11.R4",
             base_key + " [independent searches]",
@@ -1929,6 +2063,106 @@ def run_r4(repo: Repo, res: Result) -> None:
     res.floor("C11.R4", 12, n)
 
 
+def _helper_search(fn: Fn, co: Collections, call: ast.AST, bnames: set[str], params: list[str], key_params: list[str]) -> tuple[str, str]:
+    """The value stored for a key is the result of a repo helper that could not be replaced by its body (a loop, a try, several
+    statements).  ("ok", "") if the helper runs a graph search, changes nothing that outlives the call, and is given only the key
+    and whole collections; ("bad", why) with the offending construct; ("unsure", why) if the helper cannot be followed."""
+    repo = fn.repo
+    T = types_of(repo)
+    shown = norm(call, 80)
+    if not isinstance(call, ast.Call):
+        return "bad", f"the value `{shown}` stored for a key is not computed by a graph search for that key (it is derived from other state)"
+    h = fn.callee(call)
+    if h is None or isinstance(h.node, ast.Lambda):
+        cs, _how = fn.callees(call)
+        if not cs:
+            return "bad", f"the value `{shown}` stored for a key is not computed by a graph search for that key (it is derived from other state)"
+        return "unsure", f"the value `{shown}` stored for a key is computed by a helper that could not be resolved uniquely"
+    inside = reachable_funcs(repo, [h], byname=False)
+    if not any(g.module.name == SEARCHES for g in inside):
+        return "bad", f"the value `{shown}` stored for a key is not computed by a graph search for that key (it is derived from other state)"
+    # nothing that outlives the call is changed: fields of the receiver / of parameters, containers handed in
+    orig_call = getattr(call, "_orig", (None, call))[1]
+    own_object = isinstance(orig_call, ast.Call) and isinstance(orig_call.func, ast.Attribute) and isinstance(orig_call.func.value, ast.Call) and bool(_ctor_class(fn, call.func.value) if isinstance(call.func, ast.Attribute) else False)
+    for g in inside:
+        if g.module.name == SEARCHES or g.module.name.startswith("pytestarch.eval_structure.networkxgraph") or g.name in ("__init__", "__post_init__"):
+            continue
+        gp = set(g.param_names)
+        gfn = Fn(repo, g)
+        for x in own_nodes(g.node):
+            tgt = None
+            if isinstance(x, ast.Attribute) and isinstance(x.ctx, (ast.Store, ast.Del)):
+                tgt = x.value
+            elif isinstance(x, ast.Subscript) and isinstance(x.ctx, (ast.Store, ast.Del)):
+                tgt = x.value
+            elif isinstance(x, ast.Call) and isinstance(x.func, ast.Attribute) and x.func.attr in ("append", "extend", "add", "update", "remove", "pop", "clear", "discard", "insert", "setdefault", "popitem", "difference_update", "intersection_update", "sort", "reverse"):
+                tgt = x.func.value
+            elif isinstance(x, (ast.Global, ast.Nonlocal)):
+                return "bad", f"the helper {g.qualname} that computes the value of a key keeps state outside the call (`{header(x)}`): state is shared between the searches of one batch"
+            if tgt is None:
+                continue
+            root = tgt
+            while isinstance(root, (ast.Attribute, ast.Subscript)):
+                root = root.value
+            if own_object and isinstance(root, ast.Name) and g.cls is h.cls and g.params and root.id == g.params[0].arg and not g.is_staticmethod:
+                # the helper object is created for this key only: re-binding its fields does not outlive the entry; changing the
+                # object a field refers to is fine if that object was made for this helper object (not handed in and shared)
+                if isinstance(x, ast.Attribute) and x.value is root:
+                    continue
+                fld = tgt
+                while isinstance(fld, (ast.Attribute, ast.Subscript)) and not (isinstance(fld, ast.Attribute) and fld.value is root):
+                    fld = fld.value
+                if isinstance(fld, ast.Attribute) and _field_is_private_copy(fn, orig_call.func.value, h.cls, fld.attr):  # as written: a local that holds a set is shared
+                    continue
+            if isinstance(root, ast.Name) and root.id in gp:
+                # a parameter itself re-bound locally to a fresh container first is a local
+                defs = gfn.reaching(root.id, root) if parent(root) is not None else []
+                if isinstance(tgt, ast.Name) and defs and all(d.kind == "assign" for d in defs):
+                    continue
+                return "bad", f"the helper {g.qualname} that computes the value of a key changes `{norm(tgt, 50)}` (`{header(stmt_of(x))[:60]}`), which outlives the call: state is shared between the searches of one batch"
+    for a in [*([call.func.value] if isinstance(call.func, ast.Attribute) else []), *call.args, *[k.value for k in call.keywords]]:
+        why = _own_key_and_whole_sets_only(fn, co, a, bnames, params, key_params)
+        if why:
+            return "bad", f"the helper also receives `{show(a, 60)}`{why}"
+    return "ok", ""
+
+
+def _fresh_container(e: ast.AST | None) -> bool:
+    if isinstance(e, (ast.List, ast.Set, ast.Dict, ast.ListComp, ast.SetComp, ast.DictComp)):
+        return True
+    return isinstance(e, ast.Call) and isinstance(e.func, ast.Name) and e.func.id in ("set", "list", "dict", "sorted", "frozenset", "tuple", "defaultdict", "deque")
+
+
+def _field_is_private_copy(fn: Fn, ctor_call: ast.AST, ci, attr: str) -> bool:  # noqa: ANN001
+    """`self.<attr>` of the helper object built by `ctor_call` refers to a container made for that object: the constructor assigns a
+    fresh container, or a parameter for which the call hands in a fresh copy."""
+    init = fn.repo.lookup_method(ci, "__init__") if ci is not None else None
+    if init is None or not isinstance(ctor_call, ast.Call):
+        return False
+    vals = []
+    for n in own_nodes(init.node):
+        pairs = []
+        if isinstance(n, ast.Assign):
+            pairs = [(t, n.value) for t in n.targets]
+        elif isinstance(n, ast.AnnAssign) and n.value is not None:
+            pairs = [(n.target, n.value)]
+        for t, v in pairs:
+            if isinstance(t, ast.Attribute) and t.attr == attr and isinstance(t.value, ast.Name) and t.value.id == init.param_names[0]:
+                vals.append(v)
+    if not vals:
+        return False
+    names = init.param_names[1:]
+    given: dict[str, ast.AST] = dict(zip(names, ctor_call.args))
+    given.update({k.arg: k.value for k in ctor_call.keywords if k.arg})
+    for v in vals:
+        if _fresh_container(v):
+            continue
+        if isinstance(v, ast.Name) and v.id in given and _fresh_container(given[v.id]):
+            continue
+        return False
+    return True
+
+
 def _own_key_and_whole_sets_only(fn: Fn, co: Collections, a: ast.AST, bnames: set[str], params: list[str], key_params: list[str], depth: int = 0) -> str:
     """'' if the argument is computed from the key of this search, the graph and whole given collections of the *other* side only
     (then the search for a key is the same in a batch and in the single rule); else the reason."""
@@ -1940,6 +2174,18 @@ def _own_key_and_whole_sets_only(fn: Fn, co: Collections, a: ast.AST, bnames: se
         return ""
     if isinstance(a, ast.Attribute) and _is_graph(fn, a):
         return ""  # the graph itself (read-only for the searches)
+    if isinstance(a, ast.Name) and a.id in ("self", "cls"):
+        return ""  # the architecture object: its fields are judged where the helper reads them
+    if depth < 3 and isinstance(a, ast.Call) and _ctor_class(fn, a):
+        for x in [*a.args, *[k.value for k in a.keywords]]:  # a helper object built from the graph and whole collections
+            w = _own_key_and_whole_sets_only(fn, co, x, bnames, params, key_params, depth + 1)
+            if w:
+                return w
+        return ""
+    if depth < 3 and isinstance(a, ast.Name) and parent(a) is not None and a.id not in bnames and a.id not in params:
+        x = fn.expand(a)
+        if x is not a and not isinstance(x, ast.Name):
+            return _own_key_and_whole_sets_only(fn, co, x, bnames, params, key_params, depth + 1)
     da = co.normalise(co._describe_copy(a))
     if not da.unknown and not da.removals and len(da.contribs) == 1 and not da.contribs[0].conds and len(da.contribs[0].binders) == 1 and da.contribs[0].binders[0].root and isinstance(da.contribs[0].elt, ast.Name) and da.contribs[0].elt.id in da.contribs[0].binders[0].names:
         src = dotted(da.contribs[0].binders[0].source)
